@@ -741,10 +741,12 @@ class HplUnaryOperator(HplExpression):
 
     @operand.validator
     def _check_operand(self, _attribute, arg: HplExpression):
-        self._type_check(arg, self.operator.parameter, force=True)
+        self._type_check(arg, self.operator.parameter)
 
     def __attrs_post_init__(self):
         object.__setattr__(self, 'data_type', self.operator.result)
+        # narrow a copy of the operand, the argument may belong to another tree
+        object.__setattr__(self, 'operand', self.operand.cast(self.operator.parameter))
 
     @classmethod
     def minus(cls, operand: HplExpression) -> 'HplUnaryOperator':
@@ -1049,14 +1051,17 @@ class HplBinaryOperator(HplExpression):
 
     @operand1.validator
     def _check_operand1(self, _attribute, arg: HplExpression):
-        self._type_check(arg, self.operator.parameter1, force=True)
+        self._type_check(arg, self.operator.parameter1)
 
     @operand2.validator
     def _check_operand2(self, _attribute, arg: HplExpression):
-        self._type_check(arg, self.operator.parameter2, force=True)
+        self._type_check(arg, self.operator.parameter2)
 
     def __attrs_post_init__(self):
         object.__setattr__(self, 'data_type', self.operator.result)
+        # narrow copies of the operands, the arguments may belong to another tree
+        object.__setattr__(self, 'operand1', self.operand1.cast(self.operator.parameter1))
+        object.__setattr__(self, 'operand2', self.operand2.cast(self.operator.parameter2))
         if self.operator.similar_parameter_types:
             a: HplExpression = self.operand1.cast(self.operand2.data_type)
             b: HplExpression = self.operand2.cast(a.data_type)
@@ -1565,8 +1570,12 @@ class HplDataAccess(HplExpression):
 
 @frozen
 class HplFieldAccess(HplDataAccess):
-    message: HplExpression = field(validator=_type_checker(DataType.MESSAGE, force=True))
+    message: HplExpression = field(validator=_type_checker(DataType.MESSAGE))
     field: str = field(validator=instance_of(str))
+
+    def __attrs_post_init__(self):
+        # narrow a copy of the accessed object, the argument may belong to another tree
+        object.__setattr__(self, 'message', self.message.cast(DataType.MESSAGE))
 
     @property
     def is_field(self) -> bool:
@@ -1620,8 +1629,13 @@ class HplFieldAccess(HplDataAccess):
 
 @frozen
 class HplArrayAccess(HplDataAccess):
-    array: HplExpression = field(validator=_type_checker(DataType.ARRAY, force=True))
-    index: HplExpression = field(validator=_type_checker(DataType.NUMBER, force=True))
+    array: HplExpression = field(validator=_type_checker(DataType.ARRAY))
+    index: HplExpression = field(validator=_type_checker(DataType.NUMBER))
+
+    def __attrs_post_init__(self):
+        # narrow copies of the arguments, they may belong to another tree
+        object.__setattr__(self, 'array', self.array.cast(DataType.ARRAY))
+        object.__setattr__(self, 'index', self.index.cast(DataType.NUMBER))
 
     @property
     def is_indexed(self) -> bool:
